@@ -41,6 +41,8 @@ class Gen:
         self.loop_depth = 0       # loops enclosing the current point inside the current lambda
         self.in_lambda = 0
         self.funcs = []           # (name, arity, kind) of functions declared so far and visible at top level
+        self.readonly = set()     # names that must not be assigned (outer variables of a frozen lambda, C17)
+        self.allow_eval = True
 
     # ---------------------------------------------------------------- helpers
     def name(self, prefix="v"):
@@ -244,10 +246,11 @@ class Gen:
         self.loop_depth += 1
         cs = self.clauses(depth)
         kind = r.choice(["do", "do", "yield", "yieldkv"])
-        body = self.block(depth + 1, nstmts=r.randint(1, 3), result=INT if kind != "do" else None, in_loop=True)
         key = None
         if kind == "yieldkv":
+            # generated before the body: the key is evaluated first and must not see body declarations
             key = self.expr(r.choice([INT, STR]), depth + 2)
+        body = self.block(depth + 1, nstmts=r.randint(1, 3), result=INT if kind != "do" else None, in_loop=True)
         self.loop_depth -= 1
         self.scopes.pop()
         return ("for", cs, kind, body, key, None)
@@ -297,7 +300,7 @@ class Gen:
             self.declare(n, ty)
             return ("decl", n, e)
         if k < 0.28:
-            vs = self.visible(INT)
+            vs = [v for v in self.visible(INT) if v not in self.readonly]
             if vs and r.random() < 0.97:
                 n = r.choice(vs)
                 return ("assign", n, self.expr(INT, depth + 1)) if r.random() < 0.5 else ("opassign", n, r.choice(["+", "*", "-"]), self.expr(INT, depth + 1))
@@ -308,7 +311,7 @@ class Gen:
             self.declare(n, INT)
             return ("decl", n, e)
         if k < 0.34:
-            vs = self.visible(LST)
+            vs = [v for v in self.visible(LST) if v not in self.readonly]
             if vs:
                 return ("opassign", r.choice(vs), "++", self.expr(LST, depth + 1))
         if k < 0.42:
@@ -395,7 +398,7 @@ class Gen:
             if r.random() < 0.85 and arms[-1][0][0] == "lit":
                 arms.append((("wild",), ("int", r.randint(20, 29))))
             return ("print", ("switch", self.expr(INT, depth + 1), arms))
-        if k < 0.98:
+        if k < 0.98 and self.allow_eval:
             inner = self.block(depth + 1, r.randint(1, 2), result=INT)
             return ("print", ("eval", inner)) if r.random() < 0.7 else ("eval", inner)
         return self.expr(INT, depth + 1)
